@@ -69,6 +69,14 @@ Theorem C09_cs_linearisation : forall (St Call Out : Type) (step : Call -> St ->
 Proof. exact cs_order_linearises. Qed.
 Print Assumptions C09_cs_linearisation.
 
+(* The premise of the linearisation theorem on the regenerated summaries: every method the property
+   allows concurrently takes ns.mu at no more than one Lock site among all the functions it can
+   reach, so that what it observes of the shared analysis state and what it does to it happen in
+   the same critical section. *)
+Theorem C09_one_critical_section_per_call : forall m, In m api_methods -> (lock_site_count m <= 1)%nat.
+Proof. exact one_critical_section_per_call. Qed.
+Print Assumptions C09_one_critical_section_per_call.
+
 (* What is not proved: that the real API is such a state machine (one critical section per call that
    determines the result), which needs the engine model of DESIGN 4.1.  Stated over an abstract
    interpretation of calls: [prog] the action program of a call, [step] its effect, [observed] what
